@@ -500,6 +500,7 @@ class ConcatScenario(BaseScenario):
                     if w.suspect:
                         break
                 if not w.suspect:
+                    w.check_all("final:before close")
                     for h in sorted(w.ws):
                         self.boundary(w, h, same=False, final=True)
             except Violation as vio:
@@ -1231,7 +1232,12 @@ class ConcatScenario(BaseScenario):
         except Exception as err:  # pylint: disable=broad-except
             raise Violation(w.v("C04"), "reopen_fails", f"re-opening raised {type(err).__name__}: {str(err)[:120]}", {"exc": type(err).__name__}) from None
         w.sim.probe("reopen")
-        w.check_all("reopen:after re-open")
+        # (sparse runs: half of the re-opens are not followed by a full read, so that later operations meet entities whose
+        #  values were never loaded; the next observed event or the final re-open still reads everything)
+        if w.cfg.get("peek", "always") == "always" or random.Random(H(w.sim.seed, "peek-reopen", len(w.trace))).random() < 0.5:
+            w.check_all("reopen:after re-open")
+        else:
+            w.sim.probe("reopen_unread")
         # attributes assigned on holes survive (C03 for concatenated entities)
         for g, grp in w.groups.items():
             if grp["h"] != h:
